@@ -17,7 +17,10 @@ EXOTIC = ["a.b", "x y", "A/B", "9", "END", "KILL", "MY_LOOP", "LOOPY",
 
 
 class _G:
-    def __init__(self, draw, max_events, exotic, allow_loops, allow_kill):
+    def __init__(self, draw, max_events, exotic, allow_loops, allow_kill,
+                 two_breaks=True, empty_break=False):
+        self.two_breaks = two_breaks
+        self.empty_break = empty_break
         self.draw = draw
         self.n = 0
         self.max_events = max_events
@@ -93,6 +96,16 @@ class _G:
                      for _ in range(1 if self.chance(6) else 2)]
             pos = self.integers(0, len(other))
             branches = other[:pos] + [brk] + other[pos:]
+            if self.two_breaks and self.chance(3):
+                # a second break branch at the same decision point
+                b2 = Seq((Ev(self.name()), Break()))
+                pos2 = self.integers(0, len(branches))
+                branches = branches[:pos2] + [b2] + branches[pos2:]
+            elif self.empty_break and self.chance(3):
+                # leave the loop straight from the decision point
+                pos2 = self.integers(0, len(branches))
+                branches = branches[:pos2] + [Seq((Break(),))] + \
+                    branches[pos2:]
             x = Fork("XOR", tuple(branches))
             body = (body
                     + ([Ev(self.name())]
@@ -105,11 +118,12 @@ class _G:
 
 @st.composite
 def definitions(draw, max_events=None, loops=True, loops_required=False,
-                multi_start=None, exotic=None, kill=True):
+                multi_start=None, exotic=None, kill=True, two_breaks=True,
+                empty_break=False):
     me = max_events or draw(st.integers(4, 16))
     ex = draw(st.integers(0, 9)) < 2 if exotic is None else exotic
     ms = (draw(st.integers(0, 9)) < 1) if multi_start is None else multi_start
-    g = _G(draw, me, ex, loops, kill)
+    g = _G(draw, me, ex, loops, kill, two_breaks, empty_break)
     items = g.seq(0, False, first_block=ms)
     ast = Seq(tuple(items))
     if loops_required and not any(isinstance(n, Loop) for n in ps.walk(ast)):
@@ -158,6 +172,14 @@ def features(ast) -> tuple:
                     f.add("fork_in_loop")
                 if has_break(it):
                     f.add("break")
+                    for x in body:
+                        if isinstance(x, Fork):
+                            nb = [b for b in x.branches
+                                  if isinstance(b.items[-1], Break)]
+                            if len(nb) >= 2:
+                                f.add("two_breaks_one_decision")
+                            if any(len(b.items) == 1 for b in nb):
+                                f.add("empty_break")
                     for x in body:
                         if isinstance(x, Fork):
                             for b in x.branches:
